@@ -186,6 +186,12 @@ fn elem_for(r: &mut Rng, with_nested: bool) -> ElemKind {
 
 // ------------------------------------------------------------------ C16 generation
 
+/// The two "hot" positions of a long initial list: one near the front, one far behind (behind
+/// position 1024 when the list is that long). Searches and swaps of one run concentrate on them.
+fn hot(len: usize) -> (usize, usize) {
+    (3.min(len.saturating_sub(1)), if len > 1030 { 1028 } else { len - 1 - (len / 8) })
+}
+
 pub fn generate_c16(run_seed: u64, thorough: bool) -> ListDesc {
     let by_ref = rng::derive(run_seed, &[rng::label("by-ref")]) % 5 == 0;
     let mut r = Rng::new(rng::derive(run_seed, &[rng::label("workload")]));
@@ -257,15 +263,29 @@ pub fn generate_c16(run_seed: u64, thorough: bool) -> ListDesc {
                 2 => Op::Len { h },
                 3 => {
                     if len > 12 && g.r.chance(1, 2) {
-                        // far apart: one index in the first half, one in the second
-                        Op::Swap { h, i: g.r.below(len / 2), j: len / 2 + g.r.below(len - len / 2) }
+                        // far apart, and preferably the list's "hot" elements (the ones other
+                        // operations of this run look for): one near the front, one far behind
+                        let (hf, hb) = hot(init[lid].len());
+                        if g.r.chance(2, 3) {
+                            Op::Swap { h, i: hf as u64, j: hb as u64 }
+                        } else {
+                            Op::Swap { h, i: g.r.below(len / 2), j: len / 2 + g.r.below(len - len / 2) }
+                        }
                     } else {
                         Op::Swap { h, i: idx(&mut g), j: idx(&mut g) }
                     }
                 }
                 4 | 5 => {
-                    // mostly look for something that is in this very list (initial element), else anything
-                    let v = if !init[lid].is_empty() && g.r.chance(2, 3) { g.r.pick(&init[lid]).clone() } else { g.known() };
+                    // mostly look for something that is in this very list (initial element) - in long
+                    // lists preferably one of the two hot elements - else anything
+                    let v = if init[lid].len() > 12 && g.r.chance(1, 2) {
+                        let (hf, hb) = hot(init[lid].len());
+                        init[lid][if g.r.chance(1, 2) { hf } else { hb }].clone()
+                    } else if !init[lid].is_empty() && g.r.chance(2, 3) {
+                        g.r.pick(&init[lid]).clone()
+                    } else {
+                        g.known()
+                    };
                     if kind == 4 { Op::Contains { h, v } } else { Op::Index { h, v } }
                 }
                 6 => {
